@@ -4,6 +4,7 @@
 import Verif.Model.C14
 import Mathlib.Algebra.Order.Field.Rat
 import Mathlib.Tactic.Linarith
+import Mathlib.Tactic.Ring
 
 namespace Verif.C14
 
@@ -1033,6 +1034,98 @@ theorem setParams_gen (old : List (String × Param)) (names : List String) (defs
   | some p =>
     simp only [Option.getD_some]
     exact hgen _ (mem_of_lookup_eq_some old nd.1 p hl)
+
+
+/-! ### the sum of squares is a sum over all datasets -/
+
+theorem sumSq_append (l1 l2 : List Rat) : sumSq (l1 ++ l2) = sumSq l1 + sumSq l2 := by
+  simp [sumSq, List.map_append, List.sum_append]
+
+theorem sumSq_flatMap {α} (l : List α) (φ : α → List Rat) :
+    sumSq (l.flatMap φ) = (l.map fun a => sumSq (φ a)).sum := by
+  induction l with
+  | nil => simp [sumSq]
+  | cons a as ih => simp only [List.flatMap_cons, sumSq_append, ih, List.map_cons, List.sum_cons]
+
+theorem sumSq_flatten (l : List (List Rat)) : sumSq l.flatten = (l.map sumSq).sum := by
+  induction l with
+  | nil => simp [sumSq]
+  | cons a as ih => simp only [List.flatten_cons, sumSq_append, ih, List.map_cons, List.sum_cons]
+
+theorem sum_map_zero {α} (l : List α) : (l.map fun _ => (0 : Rat)).sum = 0 := by
+  induction l with
+  | nil => rfl
+  | cons a as ih => simp only [List.map_cons, List.sum_cons, ih]; simp
+
+theorem sum_map_add' {α} (l : List α) (f g : α → Rat) :
+    (l.map fun a => f a + g a).sum = (l.map f).sum + (l.map g).sum := by
+  induction l with
+  | nil => simp
+  | cons a as ih => simp only [List.map_cons, List.sum_cons, ih]; ring
+
+theorem sum_range_ite (n k : Nat) (c : Rat) (hk : k < n) :
+    ((List.range n).map fun ci => if k = ci then c else 0).sum = c := by
+  induction n with
+  | zero => omega
+  | succ n ih =>
+    rw [List.range_succ, List.map_append, List.sum_append]
+    by_cases h : k = n
+    · subst h
+      have : ((List.range k).map fun ci => if k = ci then c else 0) = (List.range k).map fun _ => (0 : Rat) := by
+        apply List.map_congr_left
+        intro ci hci
+        have := List.mem_range.mp hci
+        simp [show k ≠ ci by omega]
+      rw [this, sum_map_zero]; simp
+    · rw [ih (by omega)]; simp [h]
+
+/-- splitting a list by a key with values below `n` and summing the classes one after the other is summing the list -/
+theorem sum_by_key {α} (l : List α) (k : α → Nat) (n : Nat) (h : α → Rat) (hk : ∀ a ∈ l, k a < n) :
+    ((List.range n).map fun ci => ((l.filter fun a => k a == ci).map h).sum).sum = (l.map h).sum := by
+  induction l with
+  | nil => simp only [List.filter_nil, List.map_nil, List.sum_nil]; exact sum_map_zero _
+  | cons a as ih =>
+    have e : (fun ci => (((a :: as).filter fun a' => k a' == ci).map h).sum) =
+        fun ci => (if k a = ci then h a else 0) + ((as.filter fun a' => k a' == ci).map h).sum := by
+      funext ci
+      by_cases hc : k a = ci
+      · simp [List.filter_cons, hc]
+      · simp [List.filter_cons, hc]
+    rw [e, sum_map_add', sum_range_ite n (k a) (h a) (hk a List.mem_cons_self),
+      ih (fun a' ha' => hk a' (List.mem_cons_of_mem _ ha'))]
+    simp
+
+/-- the sum of squares of the blocks of one condition group as the code evaluates them (local vector of the FIRST
+    dataset for all) -/
+def groupCost (f : ModelFn) (uniq : List String) (g : List Rat) : List Data → Rat
+  | [] => 0
+  | r :: rest => ((r :: rest).map fun d => sumSq (dataResidual f (getLocalParams (mkCondition r.trans uniq) g) d)).sum
+
+theorem sumSq_residualOf_filterMap (f : ModelFn) (uniq : List String) (g : List Rat) (gs : List (List Data)) :
+    sumSq (residualOf (gs.filterMap fun grp => match grp with
+      | [] => none
+      | r :: _ => some (mkCondition r.trans uniq, grp)) f g) = (gs.map (groupCost f uniq g)).sum := by
+  induction gs with
+  | nil => simp [residualOf, sumSq]
+  | cons grp gs ih =>
+    cases grp with
+    | nil =>
+      simp only [List.filterMap_cons, List.map_cons, List.sum_cons, groupCost, zero_add]
+      exact ih
+    | cons r rest =>
+      simp only [List.filterMap_cons, List.map_cons, List.sum_cons]
+      unfold residualOf at ih ⊢
+      rw [List.flatMap_cons, sumSq_append, ih, sumSq_flatMap]
+      rfl
+
+theorem zipWith_eq_map_zip' {α β γ} (fn : α → β → γ) (l1 : List α) (l2 : List β) :
+    List.zipWith fn l1 l2 = (l1.zip l2).map fun p => fn p.1 p.2 := by
+  induction l1 generalizing l2 with
+  | nil => simp
+  | cons a as ih =>
+    cases l2 with
+    | nil => simp
+    | cons b bs => simp only [List.zipWith_cons_cons, List.zip_cons_cons, List.map_cons, ih]
 
 
 end Verif.C14
